@@ -37,11 +37,18 @@ type streamOut struct {
 
 // runBulkStream posts the documents as internal/api/v2/controllers_bulk.go does for the
 // json-stream content type.
-func runBulkStream(ctx context.Context, ctrl ledgercontroller.Controller, docs []string, o bulkOpts) (*streamOut, error) {
+func runBulkStream(ctx context.Context, ctrl ledgercontroller.Controller, carrier string, docs []string, o bulkOpts) (*streamOut, error) {
 	body := strings.Join(docs, "\n") + "\n"
 	req := httptest.NewRequest(http.MethodPost, "/v2/l1/_bulk", strings.NewReader(body)).WithContext(ctx)
 	rec := httptest.NewRecorder()
-	h := bulking.NewJSONStreamBulkHandler()
+	type streamHandler interface {
+		bulking.Handler
+		StreamError() error
+	}
+	var h streamHandler = bulking.NewJSONStreamBulkHandler()
+	if carrier == "script-stream" {
+		h = bulking.NewTextStreamBulkHandler()
+	}
 	send, receive, ok := h.GetChannels(rec, req)
 	if !ok {
 		return nil, fmt.Errorf("request rejected by the stream handler")
@@ -73,23 +80,55 @@ func normResults(rs []apiResult) string {
 	return strings.Join(parts, "\n")
 }
 
-func (c *c32) streamed(ctx context.Context, start *pgsim.DB, stateName string) (cases, undecodable int, complete bool) {
-	menu := c32Menu()[:c32CoreMenu]
-	var bulks [][]bulkElem
+// streamElem: one element in both spellings: as a member of the JSON array and as a document
+// of the stream.
+type streamElem struct {
+	bulkElem
+	Doc string
+}
+
+// scriptStreamMenu: the text stream only carries scripted transactions.
+func scriptStreamMenu() []streamElem {
+	mk := func(name, script string) streamElem {
+		return streamElem{
+			bulkElem: bulkElem{Name: name, Act: bulking.ActionCreateTransaction, JSON: `{"action":"CREATE_TRANSACTION","data":{"script":{"plain":` + jstr(script) + `,"vars":{}}}}`},
+			Doc:      "//script\n" + script + "\n//end",
+		}
+	}
+	return []streamElem{
+		mk("script-fund-a", "send [USD 10] (\n source = @world\n destination = @a\n)"),
+		mk("script-overdraw", "send [USD 1000] (\n source = @c\n destination = @a\n)"),
+		mk("script-meta", bulkScript),
+		mk("script-a-to-b", "send [USD 5] (\n source = @a\n destination = @b\n)"),
+	}
+}
+
+func (c *c32) streamed(ctx context.Context, start *pgsim.DB, stateName, carrier string) (cases, undecodable int, complete bool) {
+	var menu []streamElem
+	undecodableDoc, undecodableName := c32Undecodable, "UNDECODABLE(timestamp)"
+	if carrier == "script-stream" {
+		menu = scriptStreamMenu()
+		undecodableDoc, undecodableName = "//script ik=a,ik=b\nsend [USD 1] (\n source = @world\n destination = @a\n)\n//end", "UNDECODABLE(header)"
+	} else {
+		for _, e := range c32Menu()[:c32CoreMenu] {
+			menu = append(menu, streamElem{bulkElem: e, Doc: e.JSON})
+		}
+	}
+	var bulks [][]streamElem
 	for _, a := range menu {
-		bulks = append(bulks, []bulkElem{a})
+		bulks = append(bulks, []streamElem{a})
 	}
 	for _, a := range menu {
 		for _, b := range menu {
-			bulks = append(bulks, []bulkElem{a, b})
+			bulks = append(bulks, []streamElem{a, b})
 		}
 	}
 	viol := func(o bulkOpts, kind string, names []string, format string, a ...any) {
-		c.r.Violation("C32:json-stream:"+o.mode()+":"+kind+":start="+stateName,
-			fmt.Sprintf("start=%s json-stream bulk=%v options=%s: ", stateName, names, o)+fmt.Sprintf(format, a...),
-			map[string]any{"carrier": "json-stream", "startState": stateName, "documents": names, "options": o})
+		c.r.Violation("C32:"+carrier+":"+o.mode()+":"+kind+":start="+stateName,
+			fmt.Sprintf("start=%s %s bulk=%v options=%s: ", stateName, carrier, names, o)+fmt.Sprintf(format, a...),
+			map[string]any{"carrier": carrier, "startState": stateName, "documents": names, "options": o})
 	}
-	run := func(docs []string, o bulkOpts, stream bool) (*streamOut, string, string, error) {
+	run := func(members, docs []string, o bulkOpts, stream bool) (*streamOut, string, string, error) {
 		pg := start.Clone()
 		w := world.Attach(pg)
 		defer w.Close()
@@ -99,9 +138,9 @@ func (c *c32) streamed(ctx context.Context, start *pgsim.DB, stateName string) (
 		}
 		var out *streamOut
 		if stream {
-			out, err = runBulkStream(ctx, ctrl, docs, o)
+			out, err = runBulkStream(ctx, ctrl, carrier, docs, o)
 		} else {
-			st, res, raw, rerr := runBulk(ctx, ctrl, "["+strings.Join(docs, ",")+"]", o)
+			st, res, raw, rerr := runBulk(ctx, ctrl, "["+strings.Join(members, ",")+"]", o)
 			out, err = &streamOut{status: st, results: res, raw: raw}, rerr
 		}
 		if err != nil {
@@ -119,21 +158,22 @@ func (c *c32) streamed(ctx context.Context, start *pgsim.DB, stateName string) (
 			if c.r.Expired() || c.r.HasEngineError() {
 				return cases, undecodable, false
 			}
-			names := bulkCase{Elems: b}.names()
-			var docs []string
+			var names, docs, members []string
 			for _, e := range b {
-				docs = append(docs, e.JSON)
+				names = append(names, e.Name)
+				docs = append(docs, e.Doc)
+				members = append(members, e.JSON)
 			}
 			// 1. differential against the JSON array carrier
-			viaArray, obsA, _, err := run(docs, o, false)
+			viaArray, obsA, _, err := run(members, nil, o, false)
 			if err != nil {
 				c.r.EngineError(fmt.Sprintf("json bulk %v %s: %v", names, o, err))
 				return cases, undecodable, false
 			}
-			viaStream, obsS, _, err := run(docs, o, true)
+			viaStream, obsS, _, err := run(nil, docs, o, true)
 			if err != nil {
 				if strings.Contains(err.Error(), "pgsim:") {
-					c.r.EngineError(fmt.Sprintf("json-stream bulk %v %s: %v", names, o, err))
+					c.r.EngineError(fmt.Sprintf("%s bulk %v %s: %v", carrier, names, o, err))
 					return cases, undecodable, false
 				}
 				viol(o, "no-results", names, "%v", err)
@@ -146,15 +186,15 @@ func (c *c32) streamed(ctx context.Context, start *pgsim.DB, stateName string) (
 			if obsS != obsA {
 				viol(o, "ledger-differs-from-json-carrier", names, "the ledger after the streamed bulk differs from the ledger after the same bulk sent as a JSON array")
 			}
-			c.outcomes.add("json-stream:"+o.mode()+":same-as-json-carrier", 1)
+			c.outcomes.add(carrier+":"+o.mode()+":same-as-json-carrier", 1)
 			// 2. an undecodable document at every position
 			for k := 0; k <= len(b); k++ {
-				withBad := append(append(append([]string{}, docs[:k]...), c32Undecodable), docs[k:]...)
-				badNames := append(append(append([]string{}, names[:k]...), "UNDECODABLE(timestamp)"), names[k:]...)
-				out, obs, after, err := run(withBad, o, true)
+				withBad := append(append(append([]string{}, docs[:k]...), undecodableDoc), docs[k:]...)
+				badNames := append(append(append([]string{}, names[:k]...), undecodableName), names[k:]...)
+				out, obs, after, err := run(nil, withBad, o, true)
 				if err != nil {
 					if strings.Contains(err.Error(), "pgsim:") {
-						c.r.EngineError(fmt.Sprintf("json-stream bulk %v %s: %v", badNames, o, err))
+						c.r.EngineError(fmt.Sprintf("%s bulk %v %s: %v", carrier, badNames, o, err))
 						return cases, undecodable, false
 					}
 					viol(o, "no-results", badNames, "%v", err)
@@ -171,12 +211,12 @@ func (c *c32) streamed(ctx context.Context, start *pgsim.DB, stateName string) (
 						}
 						viol(o, "partial-apply:undecodable-element", badNames, "document #%d of the stream cannot be decoded (answer: status %d, errorCode %q), yet the atomic bulk was committed: %d element result(s) report success and the database changed", k+1, out.status, out.errorCode, applied)
 					} else {
-						c.outcomes.add("json-stream:atomic:undecodable:nothing-applied", 1)
+						c.outcomes.add(carrier+":atomic:undecodable:nothing-applied", 1)
 					}
 					continue
 				}
 				// sequential: exactly the prefix before the undecodable document
-				_, obsPrefix, _, err := run(docs[:k], o, false)
+				_, obsPrefix, _, err := run(members[:k], nil, o, false)
 				if k == 0 {
 					obsPrefix, err = "", nil
 					pg := start.Clone()
@@ -195,7 +235,7 @@ func (c *c32) streamed(ctx context.Context, start *pgsim.DB, stateName string) (
 				if obs != obsPrefix {
 					viol(o, "undecodable-element:not-the-prefix", badNames, "the ledger after the stream differs from the ledger after the %d element(s) before the undecodable document", k)
 				} else {
-					c.outcomes.add("json-stream:sequential:undecodable:prefix-applied", 1)
+					c.outcomes.add(carrier+":sequential:undecodable:prefix-applied", 1)
 				}
 			}
 		}
